@@ -355,7 +355,8 @@ META = {
     "deal with stages already started; SubprocSpec.close and _close_proc release the same slots; _end's close and "
     "ended flag are on every exit; the alias thread always closes /dev/null and ProcProxy.wait closes what it "
     "opened; PipeChannel clears the fd under the lock before os.close and hands out non-owning wrappers; "
-    "safe_fdclose never closes 0-2/sys.std*; process-wide state is only changed inside paired constructs. Actual "
+    "safe_fdclose never closes 0-2/sys.std*; process-wide state is only changed inside paired constructs; every explicit raise on the way out of "
+    "CommandPipeline.end (helpers expanded to depth 3) hands the controlling terminal back first. Actual "
     "fd/child counts are run-time state and not decided.",
     "note": "Decides the listed structural clauses, not the behaviour. Exception edges are modelled only where the "
     "function's own try/with/finally makes them observable (DESIGN Appendix A).",
